@@ -62,7 +62,7 @@ impl Lz77Params {
             max_dist_3: *rng.pick(&[0u32, 64, 4096, 32768]),
             match_to_start: rng.chance(1, 4),
             very_far: rng.chance(1, 4),
-            block_tokens: *rng.pick(&[127usize, 511, 1000, 4095, 16383, 100000]),
+            block_tokens: *rng.pick(&[1usize, 2, 3, 16, 127, 511, 1000, 4095, 16383, 100000]),
             stored_every: if rng.chance(1, 5) { rng.range(2, 5) as usize } else { 0 },
             empty_run: if rng.chance(1, 6) { *rng.pick(&[1usize, 2, 5, 16, 17, 18, 40]) } else { 0 },
             literals_only: false,
